@@ -1,5 +1,6 @@
 """C02 - OASIS save/load round trip under every writer option (decided on the implementation by gdstk's own reader)."""
 CONFIG = {
+    "manifest": {'level_text': 'Theorems (closed under the global context) on a specification-level Gallina model of the OASIS element records: spec_oas_decode (spec_oas_encode choices L) = Some L for every well-formed layout, every modal-variable / explicit-field choice and XY mode, with one round-trip theorem per record kind (RECTANGLE, POLYGON, PATH, TRAPEZOID x3, CTRAPEZOID, CIRCLE, TEXT, PLACEMENT x2), all repetition types and point lists; rectangle and trapezoid DETECTION (the statement-level model of the static is_rectangle / is_trapezoid, compared with the real functions on 20k+ polygons per run) is proved sound: whatever record the writer selects decodes to the same vertex cycle; the generated CTRAPEZOID table of read_oas equals the specification table on every run. The round trip through the real Library::write_oas / read_oas under all option words, compression levels and repeated cycles is decided on the implementation by an oracle (canonical grid dumps, signature validation, circle tolerance).', 'level_note': "There is no statement-level Coq model of read_oas / write_oas (2 x ~1000 lines of C++): 'load(save L) = canon L' for the real reader and writer is established per run by the oracle, not by a theorem; zlib (CBLOCK) and crc32 are outside any model. Name tables, PROPERTY records and PAD are in the specification decoder but not in the round-trip theorem. Known findings (recorded): negative ExplicitX/Y coordinates written as unsigned; a one-grid-step path segment is merged away on the second cycle; circle detection far from the origin. Five defects were repaired by fix: commits.", 'technique': 'Coq round-trip theorems on a specification-level OASIS model + proved shape-detection soundness + implementation-level round-trip oracle over all writer options'},
     # the specification-level OASIS model and its round-trip theorems are shared with C04
     "prop_file": "Properties_C04",
     "harness": "c02",
